@@ -383,7 +383,17 @@ pub fn run(a: &Args) {
 			],
 		),
 	];
-	let quick_scenarios: BTreeSet<&str> = ["send", "invoice", "late-lock", "self-send", "bookkeeping"].iter().cloned().collect();
+	// a scan that drops pending transactions while a send with several inputs is pending
+	let mut scenarios = scenarios;
+	scenarios.push((
+		"scan-with-pending",
+		vec![
+			Step { op: "init_send", params: json!({"wallet":0,"amount":130_000_000_000u64,"change":2}) },
+			Step { op: "lock", params: json!({"wallet":0,"slate":"{prev:init_send}"}) },
+			Step { op: "scan", params: json!({"wallet":0,"delete_unconfirmed":true}) },
+		],
+	));
+	let quick_scenarios: BTreeSet<&str> = ["send", "invoice", "late-lock", "self-send", "bookkeeping", "scan-with-pending"].iter().cloned().collect();
 
 	let mut case_idx = 0usize;
 	let mut seqs: Vec<Value> = vec![];
